@@ -29,6 +29,7 @@ import Fir.Proofs.SimdU16x2Lemmas
 import Fir.Proofs.SimdU16x3Lemmas
 import Fir.Proofs.SimdPassIntLemmas
 import Fir.Proofs.SimdU16x4ALemmas
+import Fir.Proofs.SimdU16x2ALemmas
 
 namespace Fir.C02
 open Fir
@@ -658,6 +659,33 @@ theorem u16x4_avx2_four_rows_masks :
 theorem u16x4_avx2_source_as_modelled :
     Fir.Gen.u16x4_avx2_one_row_skeleton = "normalizer.precision() ; _mm256_setzero_si256() ; _mm256_setzero_si256() ; chunks_exact(4) ; remainder() ; _mm256_set_epi64x(k[2] as i64, k[2] as i64, k[0] as i64, k[0] as i64) ; _mm256_set_epi64x(k[3] as i64, k[3] as i64, k[1] as i64, k[1] as i64) ; simd_utils::loadu_si256(src_row, x) ; _mm256_shuffle_epi8(source, rg02_shuffle) ; _mm256_add_epi64(rg_sum, _mm256_mul_epi32(rg_i64x4, coeff02_i64x4)) ; _mm256_shuffle_epi8(source, rg13_shuffle) ; _mm256_add_epi64(rg_sum, _mm256_mul_epi32(rg_i64x4, coeff13_i64x4)) ; _mm256_shuffle_epi8(source, ba02_shuffle) ; _mm256_add_epi64(ba_sum, _mm256_mul_epi32(ba_i64x4, coeff02_i64x4)) ; _mm256_shuffle_epi8(source, ba13_shuffle) ; _mm256_add_epi64(ba_sum, _mm256_mul_epi32(ba_i64x4, coeff13_i64x4)) ; chunks_exact(2) ; remainder() ; _mm256_set_epi64x(k[1] as i64, k[1] as i64, k[0] as i64, k[0] as i64) ; _mm256_set_m128i(simd_utils::loadl_epi64(src_row, x + 1), simd_utils::loadl_epi64(src_row, x),) ; _mm256_shuffle_epi8(source, rg02_shuffle) ; _mm256_add_epi64(rg_sum, _mm256_mul_epi32(rg_i64x4, coeff01_i64x4)) ; _mm256_shuffle_epi8(source, ba02_shuffle) ; _mm256_add_epi64(ba_sum, _mm256_mul_epi32(ba_i64x4, coeff01_i64x4)) ; first() ; _mm256_set_epi64x(0, 0, k as i64, k as i64) ; _mm256_set_m128i(_mm_setzero_si128(), simd_utils::loadl_epi64(src_row, x)) ; _mm256_shuffle_epi8(source, rg02_shuffle) ; _mm256_add_epi64(rg_sum, _mm256_mul_epi32(rg_i64x4, coeff_i64x4)) ; _mm256_shuffle_epi8(source, ba02_shuffle) ; _mm256_add_epi64(ba_sum, _mm256_mul_epi32(ba_i64x4, coeff_i64x4)) ; _mm256_storeu_si256(rg_buf.as_mut_ptr() as *mut __m256i, rg_sum) ; _mm256_storeu_si256(ba_buf.as_mut_ptr() as *mut __m256i, ba_sum) ; normalizer.clip(rg_buf[0] + rg_buf[2] + half_error) ; normalizer.clip(rg_buf[1] + rg_buf[3] + half_error) ; normalizer.clip(ba_buf[0] + ba_buf[2] + half_error) ; normalizer.clip(ba_buf[1] + ba_buf[3] + half_error)" ∧
     Fir.Gen.u16x4_avx2_four_rows_skeleton = "normalizer.precision() ; _mm256_set1_epi64x(half_error) ; _mm256_set1_epi64x(half_error) ; chunks_exact(2) ; remainder() ; _mm256_set1_epi64x(k[0] as i64) ; _mm256_set1_epi64x(k[1] as i64) ; _mm256_set_m128i(simd_utils::loadu_si128(src_rows[i * 2 + 1], x), simd_utils::loadu_si128(src_rows[i * 2], x),) ; _mm256_shuffle_epi8(source, rg0_shuffle) ; _mm256_add_epi64(sum, _mm256_mul_epi32(rg_i64x4, coeff0_i64x4)) ; _mm256_shuffle_epi8(source, rg1_shuffle) ; _mm256_add_epi64(sum, _mm256_mul_epi32(rg_i64x4, coeff1_i64x4)) ; _mm256_shuffle_epi8(source, ba0_shuffle) ; _mm256_add_epi64(sum, _mm256_mul_epi32(ba_i64x4, coeff0_i64x4)) ; _mm256_shuffle_epi8(source, ba1_shuffle) ; _mm256_add_epi64(sum, _mm256_mul_epi32(ba_i64x4, coeff1_i64x4)) ; first() ; _mm256_set1_epi64x(k as i64) ; _mm256_set_m128i(simd_utils::loadl_epi64(src_rows[i * 2 + 1], x), simd_utils::loadl_epi64(src_rows[i * 2], x),) ; _mm256_shuffle_epi8(source, rg0_shuffle) ; _mm256_add_epi64(sum, _mm256_mul_epi32(rg_i64x4, coeff0_i64x4)) ; _mm256_shuffle_epi8(source, ba0_shuffle) ; _mm256_add_epi64(sum, _mm256_mul_epi32(ba_i64x4, coeff0_i64x4)) ; _mm256_storeu_si256(rg_buf.as_mut_ptr() as *mut __m256i, rg_sum[i]) ; _mm256_storeu_si256(ba_buf.as_mut_ptr() as *mut __m256i, ba_sum[i]) ; normalizer.clip(rg_buf[0]) ; normalizer.clip(rg_buf[1]) ; normalizer.clip(ba_buf[0]) ; normalizer.clip(ba_buf[1]) ; normalizer.clip(rg_buf[2]) ; normalizer.clip(rg_buf[3]) ; normalizer.clip(ba_buf[2]) ; normalizer.clip(ba_buf[3])" := by
+  constructor <;> rfl
+
+/-! ### LA16 on AVX2 (src/convolution/u16x2/avx2.rs)
+
+    Four-row kernel: two rows per 256-bit register, the SSE4.1 instructions per half (mask halves proved equal, call sequence pinned).
+    One-row kernel: an 8-step puts pixels 0..3 into the low half and 4..7 into the high half, a 4-step two pixels per half, a 2-step
+    one pixel per half, the last coefficient the low half; the halves are joined at the end.  Modelled as `Fir.SimdU16x2A.pixelA`. -/
+
+theorem u16x2_avx2_one_row_eq_portable (p : Nat) (row : List Int) (start : Nat) (ks : List Int) :
+    Fir.SimdU16x2A.pixelA p row start ks
+      = [clip16 (2 ^ (p - 1) + Fir.SimdU16x2.dotLA row 0 ks start) p, clip16 (2 ^ (p - 1) + Fir.SimdU16x2.dotLA row 1 ks start) p] :=
+  Fir.Proofs.U16x2A.pixelA_eq_portable p row start ks
+
+theorem u16x2_one_row_avx2_eq_sse4 (p : Nat) (row : List Int) (start : Nat) (ks : List Int) :
+    Fir.SimdU16x2A.pixelA p row start ks = Fir.SimdU16x2.pixel p row start ks := by
+  rw [u16x2_avx2_one_row_eq_portable, u16x2_sse4_eq_portable]
+
+theorem u16x2_avx2_four_rows_masks :
+    Fir.Gen.u16x2_avx2_four_p0_lo = Fir.Gen.u16x2_sse4_p0 ∧ Fir.Gen.u16x2_avx2_four_p0_hi = Fir.Gen.u16x2_sse4_p0 ∧
+    Fir.Gen.u16x2_avx2_four_p1_lo = Fir.Gen.u16x2_sse4_p1 ∧ Fir.Gen.u16x2_avx2_four_p1_hi = Fir.Gen.u16x2_sse4_p1 ∧
+    Fir.Gen.u16x2_avx2_four_p2_lo = Fir.Gen.u16x2_sse4_p2 ∧ Fir.Gen.u16x2_avx2_four_p2_hi = Fir.Gen.u16x2_sse4_p2 ∧
+    Fir.Gen.u16x2_avx2_four_p3_lo = Fir.Gen.u16x2_sse4_p3 ∧ Fir.Gen.u16x2_avx2_four_p3_hi = Fir.Gen.u16x2_sse4_p3 := by
+  refine ⟨?_, ?_, ?_, ?_, ?_, ?_, ?_, ?_⟩ <;> decide
+
+theorem u16x2_avx2_source_as_modelled :
+    Fir.Gen.u16x2_avx2_one_row_skeleton = "normalizer.precision() ; _mm256_setzero_si256() ; chunks_exact(8) ; remainder() ; _mm256_set_epi64x(k[4] as i64, k[4] as i64, k[0] as i64, k[0] as i64) ; _mm256_set_epi64x(k[5] as i64, k[5] as i64, k[1] as i64, k[1] as i64) ; _mm256_set_epi64x(k[6] as i64, k[6] as i64, k[2] as i64, k[2] as i64) ; _mm256_set_epi64x(k[7] as i64, k[7] as i64, k[3] as i64, k[3] as i64) ; simd_utils::loadu_si256(src_row, x) ; _mm256_shuffle_epi8(source, p0_shuffle) ; _mm256_add_epi64(ll_sum, _mm256_mul_epi32(pp_i64x4, coeff04_i64x4)) ; _mm256_shuffle_epi8(source, p1_shuffle) ; _mm256_add_epi64(ll_sum, _mm256_mul_epi32(pp_i64x4, coeff15_i64x4)) ; _mm256_shuffle_epi8(source, p2_shuffle) ; _mm256_add_epi64(ll_sum, _mm256_mul_epi32(pp_i64x4, coeff26_i64x4)) ; _mm256_shuffle_epi8(source, p3_shuffle) ; _mm256_add_epi64(ll_sum, _mm256_mul_epi32(pp_i64x4, coeff37_i64x4)) ; chunks_exact(4) ; remainder() ; _mm256_set_epi64x(k[2] as i64, k[2] as i64, k[0] as i64, k[0] as i64) ; _mm256_set_epi64x(k[3] as i64, k[3] as i64, k[1] as i64, k[1] as i64) ; _mm256_set_m128i(simd_utils::loadl_epi64(src_row, x + 2), simd_utils::loadl_epi64(src_row, x),) ; _mm256_shuffle_epi8(source, p0_shuffle) ; _mm256_add_epi64(ll_sum, _mm256_mul_epi32(pp_i64x4, coeff02_i64x4)) ; _mm256_shuffle_epi8(source, p1_shuffle) ; _mm256_add_epi64(ll_sum, _mm256_mul_epi32(pp_i64x4, coeff13_i64x4)) ; chunks_exact(2) ; remainder() ; _mm256_set_epi64x(k[1] as i64, k[1] as i64, k[0] as i64, k[0] as i64) ; _mm256_set_m128i(simd_utils::loadl_epi32(src_row, x + 1), simd_utils::loadl_epi32(src_row, x),) ; _mm256_shuffle_epi8(source, p0_shuffle) ; _mm256_add_epi64(ll_sum, _mm256_mul_epi32(pp_i64x4, coeff01_i64x4)) ; first() ; _mm256_set_epi64x(0, 0, k as i64, k as i64) ; _mm256_set_m128i(_mm_setzero_si128(), simd_utils::loadl_epi32(src_row, x)) ; _mm256_shuffle_epi8(source, p0_shuffle) ; _mm256_add_epi64(ll_sum, _mm256_mul_epi32(p_i64x4, coeff0_i64x4)) ; _mm256_storeu_si256(ll_buf.as_mut_ptr() as *mut __m256i, ll_sum) ; normalizer.clip(ll_buf[0] + ll_buf[2] + half_error) ; normalizer.clip(ll_buf[1] + ll_buf[3] + half_error)" ∧
+    Fir.Gen.u16x2_avx2_four_rows_skeleton = "normalizer.precision() ; _mm256_set1_epi64x(half_error) ; chunks_exact(4) ; remainder() ; _mm256_set1_epi64x(k[0] as i64) ; _mm256_set1_epi64x(k[1] as i64) ; _mm256_set1_epi64x(k[2] as i64) ; _mm256_set1_epi64x(k[3] as i64) ; _mm256_set_m128i(simd_utils::loadu_si128(src_rows[i * 2 + 1], x), simd_utils::loadu_si128(src_rows[i * 2], x),) ; _mm256_shuffle_epi8(source, p0_shuffle) ; _mm256_add_epi64(*sum, _mm256_mul_epi32(pp_i64x4, coeff0_i64x4)) ; _mm256_shuffle_epi8(source, p1_shuffle) ; _mm256_add_epi64(*sum, _mm256_mul_epi32(pp_i64x4, coeff1_i64x4)) ; _mm256_shuffle_epi8(source, p2_shuffle) ; _mm256_add_epi64(*sum, _mm256_mul_epi32(pp_i64x4, coeff2_i64x4)) ; _mm256_shuffle_epi8(source, p3_shuffle) ; _mm256_add_epi64(*sum, _mm256_mul_epi32(pp_i64x4, coeff3_i64x4)) ; chunks_exact(2) ; remainder() ; _mm256_set1_epi64x(k[0] as i64) ; _mm256_set1_epi64x(k[1] as i64) ; _mm256_set_m128i(simd_utils::loadl_epi64(src_rows[i * 2 + 1], x), simd_utils::loadl_epi64(src_rows[i * 2], x),) ; _mm256_shuffle_epi8(source, p0_shuffle) ; _mm256_add_epi64(*sum, _mm256_mul_epi32(pp_i64x4, coeff0_i64x4)) ; _mm256_shuffle_epi8(source, p1_shuffle) ; _mm256_add_epi64(*sum, _mm256_mul_epi32(pp_i64x4, coeff1_i64x4)) ; first() ; _mm256_set1_epi64x(k as i64) ; _mm256_set_m128i(simd_utils::loadl_epi32(src_rows[i * 2 + 1], x), simd_utils::loadl_epi32(src_rows[i * 2], x),) ; _mm256_shuffle_epi8(source, p0_shuffle) ; _mm256_add_epi64(*sum, _mm256_mul_epi32(pp_i64x4, coeff0_i64x4)) ; _mm256_storeu_si256(ll_buf.as_mut_ptr() as *mut __m256i, ll) ; normalizer.clip(ll_buf[0]) ; normalizer.clip(ll_buf[1]) ; normalizer.clip(ll_buf[2]) ; normalizer.clip(ll_buf[3])" := by
   constructor <;> rfl
 
 end Fir.C02
